@@ -27,6 +27,7 @@ struct Shape {
     const ContactGeometry::Brick* brick = nullptr;
     const ContactGeometry::Ellipsoid* ell = nullptr;
     std::string desc;
+    std::string keyName;        // shape name used in violation / coverage keys (ellipsoids with repeated radii are keyed apart)
 
     const char* name() const { return NAME[kind]; }
     bool hasImplicit() const { return kind != BRICK && kind != MESH; }
@@ -118,6 +119,11 @@ inline Shape makeShape(Kind kind, vh::Rng& r) {
         auto p = std::make_shared<ContactGeometry::TriangleMesh>(vv, ff, false); s.holder = p; s.g = p.get(); s.tm = p.get();
     } break;
     default: break;
+    }
+    s.keyName = s.name();
+    if (kind == ELLIPSOID) {
+        int eq = (s.abc[0] == s.abc[1]) + (s.abc[1] == s.abc[2]) + (s.abc[0] == s.abc[2]);
+        if (eq == 3) s.keyName = "ellipsoid-sphere"; else if (eq >= 1) s.keyName = "ellipsoid-spheroid";
     }
     return s;
 }
